@@ -207,7 +207,11 @@ def gen_script(rng, max_agents=5, max_t=8):
     for t in range(rng.randint(0, max_t + 3)):
         k = rng.randint(1, n)
         noms.append(rng.sample(range(n), k))
-    return {"n": n, "learning": learning, "doneAt": done_at, "finishAt": finish, "noms": noms}
+    sc = {"n": n, "learning": learning, "doneAt": done_at, "finishAt": finish, "noms": noms}
+    if rng.random() < 0.2:
+        # a "revive": some agents stop being done again a little later (get_done is not monotone)
+        sc["undoneAt"] = [d + rng.randint(1, 3) if d < NEVER and rng.random() < 0.6 else 1000000 for d in done_at]
+    return sc
 
 
 def exhaustive_scripts(max_learning, max_non, max_t):
